@@ -301,7 +301,8 @@ class Stepper:
             if s in regs or s in comb_t:
                 raise ValueError("input signal %r is driven by the DUT" % s)
         self.reset_state = tuple(s.reset.value for s in self.regs)
-        self.sig = hash(tuple((_signame(s), s.nbits) for s in self.regs))
+        # ordering signature (call-stack independent): widths, signedness, reset values, explicit names
+        self.sig = hash(tuple((s.name_override, s.nbits, s.signed, s.reset.value) for s in self.regs))
         self.engine = engine
         self.reg_names = None
         if engine == "compiled":
